@@ -123,7 +123,7 @@ def cases_for(c, rng, counter, mode):
 
 def describe(c):
     s = c.spec
-    d = {k: v for k, v in s.items() if k not in ("base",)}
+    d = {k: v for k, v in s.items() if k not in ("base", "_named_sig")}
     d["base"] = describe(s["base"]) if s["base"] is not None else None
     return d
 
@@ -149,14 +149,46 @@ def extra(tier, seed):
     return out, {"runtime_observations": _dist.get("defined", 0)}
 
 
+def exhaustive_single_field(tier, rng, uidc):
+    """Every combination of the per-field options for a one-field class (the small-scope part of the
+    quantifier, enumerated rather than sampled); class modes enumerated in thorough, drawn in quick."""
+    import itertools
+    defaults = [None, "value", ("factory", False), ("factory", True)]
+    hooks = [None, "NO_OP", "user"]
+    modes = list(itertools.product([False, True], repeat=3)) if tier == "thorough" else [None]
+    for d, init, kwo, conv, val, hook in itertools.product(defaults, [True, False], [False, True],
+                                                             g.CONV_KINDS[1:], [False, True], hooks):
+        for m in modes:
+            slots, frozen, cache = m if m is not None else (rng.random() < 0.5, rng.random() < 0.3, rng.random() < 0.3)
+            if frozen and hook is not None and rng.random() < 0.9:
+                continue            # rejected definitions are covered by the random stream
+            uidc[0] += 1
+            uid = "%d" % uidc[0]
+            f = {"name": rng.choice(["x", "_p"]), "default": d, "init": init, "kw_only": kwo, "converter": conv,
+                 "validator": val, "validator_style": "arg", "alias": None, "on_setattr": hook, "type": conv is None,
+                 "uid": "f_" + uid}
+            spec = {"uid": uid, "api": rng.choice(["attrs", "define"]), "base": None, "style": "attrib", "slots": slots,
+                    "frozen": frozen, "kw_only": False, "exc": False, "cache_hash": cache, "pre": None, "post": False,
+                    "on_setattr": None, "fields": [f]}
+            if spec["api"] == "define":
+                spec["style"] = "attrib_in_define"
+            yield g.ClassUnderTest(spec)
+
+
 def generate(tier, seed, mode=None):
     mode = mode or MODE
     rng = random.Random(seed)
-    n_chains = {"c01": (500, 6000), "c02": (220, 2500)}[mode][0 if tier == "quick" else 1]
+    n_chains = {"c01": (500, 20000), "c02": (220, 6000)}[mode][0 if tier == "quick" else 1]
     uidc, counter = [0], [0]
     cases = []
     _dist.clear()
     _order_disc.clear()
+    if mode == "c01" or tier == "thorough":
+        for c in exhaustive_single_field(tier, rng, uidc):
+            if c.def_error and c.def_error[0] != "ValueError":
+                continue
+            cases.extend(cases_for(c, rng, counter, mode))
+            _dist["exhaustive-single-field"] += 1
     for _ in range(n_chains):
         chain = build_chain(rng, uidc)
         for c in chain:
@@ -174,6 +206,9 @@ def generate(tier, seed, mode=None):
             for f in s["fields"]:
                 _dist["conv=%s" % (f["converter"] and f["converter"][0])] += 1
                 _dist["default=%s" % (f["default"] if isinstance(f["default"], (str, type(None))) else "factory")] += 1
+    for i, c in enumerate(cases):
+        c.inp["gen"] = {"tier": tier, "seed": seed, "mode": mode, "index": i}
+    _dist["calls"] = sum(len(c.seen) if isinstance(c.seen, list) else 0 for c in cases)
     return cases
 
 
@@ -182,9 +217,13 @@ def distribution(cases):
 
 
 def rerun(inp):
-    raise vlib.Infra("replay of generated class specifications re-runs the whole seeded stream: "
-                     "use ./check %s --seed <seed from the replay file> (classes are built from closures "
-                     "and cannot be rebuilt from JSON alone)" % PROP)
+    """Classes are built from closures, so a case is re-created by regenerating the seeded stream it came
+    from (deterministic) and picking the same index."""
+    g_ = inp.get("gen")
+    if not g_:
+        raise vlib.Infra("replay file carries no generator coordinates")
+    cs = generate(g_["tier"], g_["seed"], mode=g_["mode"])
+    return cs[g_["index"]]
 
 
 def corpus():
